@@ -1074,6 +1074,38 @@ def esl_vec_FEntropy [VNum α] {ω : Type} [VMix α ω] [VNum ω] (p : Array α)
       pure H
   pure H
 
+/-- `esl_vec_D2F` (esl_vectorops.c:1106) -/
+def esl_vec_D2F {ω : Type} [VMix α ω] [VNum ω] (src : Array ω) (n : Int) (dst : Array α) : Option (Array α) := do
+  let dst ← loop 0 n dst fun i dst => do
+      let t1 ← rd src i
+      let dst ← wr dst i (VMix.narrow t1)
+      pure dst
+  pure dst
+
+/-- `esl_vec_F2D` (esl_vectorops.c:1112) -/
+def esl_vec_F2D {ω : Type} [VMix α ω] [VNum ω] (src : Array α) (n : Int) (dst : Array ω) : Option (Array ω) := do
+  let dst ← loop 0 n dst fun i dst => do
+      let t1 ← rd src i
+      let dst ← wr dst i (VMix.widen t1 : ω)
+      pure dst
+  pure dst
+
+/-- `esl_vec_I2F` (esl_vectorops.c:1118) -/
+def esl_vec_I2F {ι : Type} [VInt α ι] (src : Array ι) (n : Int) (dst : Array α) : Option (Array α) := do
+  let dst ← loop 0 n dst fun i dst => do
+      let t1 ← rd src i
+      let dst ← wr dst i (VInt.ofInt t1)
+      pure dst
+  pure dst
+
+/-- `esl_vec_I2D` (esl_vectorops.c:1124) -/
+def esl_vec_I2D {ι : Type} [VInt α ι] (src : Array ι) (n : Int) (dst : Array α) : Option (Array α) := do
+  let dst ← loop 0 n dst fun i dst => do
+      let t1 ← rd src i
+      let dst ← wr dst i (VInt.ofInt t1)
+      pure dst
+  pure dst
+
 /-- `esl_vec_DRelEntropy` (esl_vectorops.c:1425) -/
 def esl_vec_DRelEntropy [VInf α] (p : Array α) (q : Array α) (n : Int) : Option (α) := do
   let kl := (CElem.ofNat 0 : α)
@@ -1124,6 +1156,128 @@ def esl_vec_FRelEntropy [VInf α] {ω : Type} [VMix α ω] [VNum ω] (p : Array 
     pure t10
   | Sum.inr kl =>
     pure kl
+
+/-- `esl_vec_DValidate` (esl_vectorops.c:1522) -/
+def esl_vec_DValidate [VFin α] (vec : Array α) (n : Int) (tol : α) : Option (Int) := do
+  let sum := (CElem.ofNat 0 : α)
+  if (decide (n = 0)) then
+    pure (0 : Int)
+  else
+    let t7 ← loopRet 0 n sum fun i sum => do
+        let t1 ← rd vec i
+        let t3 ← if (!(VFin.isFinite t1)) then pure true else do
+            let t2 ← rd vec i
+            pure (VOrd.lt t2 (CElem.ofNat 0 : α))
+        let t5 ← if t3 then pure true else do
+            let t4 ← rd vec i
+            pure (VOrd.lt (CElem.ofNat 1 : α) t4)
+        if t5 then
+          pure (Sum.inl (1 : Int))
+        else
+          let t6 ← rd vec i
+          let sum ← CElem.add sum t6
+          pure (Sum.inr sum)
+    match t7 with
+    | Sum.inl t8 =>
+      pure t8
+    | Sum.inr sum =>
+      let t9 ← CElem.sub sum (CElem.ofNat 1 : α)
+      if (VOrd.lt tol (VFin.abs t9)) then
+        pure (1 : Int)
+      else
+        pure (0 : Int)
+
+/-- `esl_vec_FValidate` (esl_vectorops.c:1540) -/
+def esl_vec_FValidate [VFin α] {ω : Type} [VMix α ω] [VNum ω] [VFin ω] (vec : Array α) (n : Int) (tol : α) : Option (Int) := do
+  let sum := (CElem.ofNat 0 : α)
+  if (decide (n = 0)) then
+    pure (0 : Int)
+  else
+    let t7 ← loopRet 0 n sum fun x sum => do
+        let t1 ← rd vec x
+        let t3 ← if (!(VFin.isFinite t1)) then pure true else do
+            let t2 ← rd vec x
+            pure (VOrd.lt (VMix.widen t2 : ω) (VNum.ofNat 0 : ω))
+        let t5 ← if t3 then pure true else do
+            let t4 ← rd vec x
+            pure (VOrd.lt (VNum.ofNat 1 : ω) (VMix.widen t4 : ω))
+        if t5 then
+          let status : Int := 1
+          pure (Sum.inl (status : Int))
+        else
+          let t6 ← rd vec x
+          let sum ← CElem.add sum t6
+          pure (Sum.inr sum)
+    match t7 with
+    | Sum.inl t8 =>
+      pure t8
+    | Sum.inr sum =>
+      let t9 : ω := (VMix.widen sum : ω) - (VNum.ofNat 1 : ω)
+      if (VOrd.lt (VMix.widen tol : ω) (VFin.abs t9)) then
+        let status : Int := 1
+        pure (status : Int)
+      else
+        pure (0 : Int)
+
+/-- `esl_vec_DLogValidate` (esl_vectorops.c:1584) -/
+def esl_vec_DLogValidate [VInf α] [VFin α] (vec : Array α) (n : Int) (tol : α) : Option (Int) := do
+  if (decide (n = 0)) then
+    pure (0 : Int)
+  else
+    let expvec ← allocM (n) (CElem.ofNat 0 : α)
+    let expvec ← esl_vec_DCopy vec n expvec
+    let expvec ← esl_vec_DExp expvec n
+    let t1 ← esl_vec_DValidate expvec n tol
+    let status : Int := t1
+    if (decide (status ≠ 0)) then
+      pure (status : Int)
+    else
+      pure (0 : Int)
+
+/-- `esl_vec_FLogValidate` (esl_vectorops.c:1604) -/
+def esl_vec_FLogValidate [VInf α] [VFin α] {ω : Type} [VMix α ω] [VNum ω] [VFin ω] (vec : Array α) (n : Int) (tol : α) : Option (Int) := do
+  if (decide (n = 0)) then
+    pure (0 : Int)
+  else
+    let expvec ← allocM (n) (CElem.ofNat 0 : α)
+    let expvec ← esl_vec_FCopy vec n expvec
+    let expvec ← esl_vec_FExp expvec n
+    let t1 ← esl_vec_FValidate expvec n tol
+    let status : Int := t1
+    if (decide (status ≠ 0)) then
+      pure (status : Int)
+    else
+      pure (0 : Int)
+
+/-- `esl_vec_DLog2Validate` (esl_vectorops.c:1624) -/
+def esl_vec_DLog2Validate [VInf α] [VFin α] (vec : Array α) (n : Int) (tol : α) : Option (Int) := do
+  if (decide (n = 0)) then
+    pure (0 : Int)
+  else
+    let expvec ← allocM (n) (CElem.ofNat 0 : α)
+    let expvec ← esl_vec_DCopy vec n expvec
+    let expvec ← esl_vec_DExp2 expvec n
+    let t1 ← esl_vec_DValidate expvec n tol
+    let status : Int := t1
+    if (decide (status ≠ 0)) then
+      pure (status : Int)
+    else
+      pure (0 : Int)
+
+/-- `esl_vec_FLog2Validate` (esl_vectorops.c:1644) -/
+def esl_vec_FLog2Validate [VInf α] [VFin α] {ω : Type} [VMix α ω] [VNum ω] [VFin ω] (vec : Array α) (n : Int) (tol : α) : Option (Int) := do
+  if (decide (n = 0)) then
+    pure (0 : Int)
+  else
+    let expvec ← allocM (n) (CElem.ofNat 0 : α)
+    let expvec ← esl_vec_FCopy vec n expvec
+    let expvec ← esl_vec_FExp2 expvec n
+    let t1 ← esl_vec_FValidate expvec n tol
+    let status : Int := t1
+    if (decide (status ≠ 0)) then
+      pure (status : Int)
+    else
+      pure (0 : Int)
 
 /-- `esl_vec_DCDF` (esl_vectorops.c:1482) -/
 def esl_vec_DCDF (p : Array α) (n : Int) (cdf : Array α) : Option (Array α) := do
